@@ -1,8 +1,16 @@
+//! vh-spaces: runtime monitors for p2panda-spaces (C39).
+
+mod c39;
+mod history;
+mod hostile;
+mod world;
+
 use vh_common::Args;
 
 fn main() {
     let args = Args::parse();
     match args.prop.as_str() {
-        other => panic!("vh-spaces does not serve {other} yet"),
+        "C39" => c39::run(&args),
+        other => panic!("vh-spaces does not serve {other}"),
     }
 }
